@@ -20,6 +20,8 @@ type scenGen struct {
 	prop   string
 	faults map[string]int64
 	common []Opts // option values used by several calls through one shared *ApplyOptions
+	ensureBuf map[int]bool // patch buffers written for callers that set EnsurePathExistsOnAdd
+	slotBuf   map[int]int  // slot -> buffer it was last decoded from (generation-time view)
 }
 
 func (sg *scenGen) genCommonOpts(permille int) {
@@ -86,7 +88,16 @@ func (sg *scenGen) genBufs(corruptPermille int) {
 		}
 		np := 1 + r.Intn(2)
 		for j := 0; j < np; j++ {
-			sg.pats = append(sg.pats, sg.addBuf(g.Patch(d, 6)))
+			g.EnsureFlavour = r.P(200)
+			bi := sg.addBuf(g.Patch(d, 6))
+			if g.EnsureFlavour {
+				if sg.ensureBuf == nil {
+					sg.ensureBuf = map[int]bool{}
+				}
+				sg.ensureBuf[bi] = true
+			}
+			g.EnsureFlavour = false
+			sg.pats = append(sg.pats, bi)
 		}
 		if r.P(700) {
 			sg.merges = append(sg.merges, sg.addBuf(g.MergePatchFor(d)))
@@ -184,6 +195,10 @@ func (sg *scenGen) genCall(slotsRead []int, slotWrite int, legacy bool) Call {
 			c.A = sg.anyBuf()
 		}
 		c.Slot = slotWrite
+		if sg.slotBuf == nil {
+			sg.slotBuf = map[int]int{}
+		}
+		sg.slotBuf[c.Slot] = c.A
 	case x < 55 && len(slotsRead) > 0:
 		c.Fn = []int{FnApply, FnApplyIndent, FnApplyWithOptions, FnApplyWithOptions, FnApplyIndentWithOptions}[r.Intn(5)]
 		if legacy {
@@ -194,8 +209,18 @@ func (sg *scenGen) genCall(slotsRead []int, slotWrite int, legacy bool) Call {
 			c.A = sg.anyBuf()
 		}
 		c.Slot = slotsRead[r.Intn(len(slotsRead))]
+		if bi, ok := sg.slotBuf[c.Slot]; ok && sg.ensureBuf[bi] && !legacy && r.P(850) {
+			// the patch was written for EnsurePathExistsOnAdd: apply it that way
+			c.Fn = []int{FnApplyWithOptions, FnApplyIndentWithOptions}[r.Intn(2)]
+			if c.Fn == FnApplyIndentWithOptions {
+				c.Indent = indents[r.Intn(len(indents))]
+			}
+		}
 		if c.Fn == FnApplyWithOptions || c.Fn == FnApplyIndentWithOptions {
 			c.Opts = sg.opts()
+			if bi, ok := sg.slotBuf[c.Slot]; ok && sg.ensureBuf[bi] && r.P(900) {
+				c.Opts.Ensure = true
+			}
 			if len(sg.common) > 0 && r.P(600) {
 				// one of the scenario's common option values, passed as one shared object
 				c.Opts = sg.common[r.Intn(len(sg.common))]
